@@ -330,14 +330,16 @@ package consensus
 //@   assigns nothing
 //@ func State.signVote
 //@   requires wf: len(cs.RoundState.Validators.Validators) <= 2147483647
+//@   assigns walSyncedForSign
 //@   atcall PrivValidator.SignVote exact: walSyncedForSign && arg1.Height == cs.RoundState.Height && arg1.Round == cs.RoundState.Round && arg1.Type == msgType && arg1.BlockID.Hash == hash
 //@   ensures vote: result1 == nil ==> (result0 != nil && result0.Height == cs.RoundState.Height && result0.Round == cs.RoundState.Round && result0.Type == msgType && result0.BlockID.Hash == hash)
 
-// ASSUMED frame of signAddVote (it signs through signVote and queues the vote for the node itself): the round state is
-// not written.
+// signAddVote signs through signVote with exactly the type and block hash it was given, and does not write the round
+// state (it queues the signed vote for the node itself).
 //@ func State.signAddVote
-//@   trusted
-//@   assigns except(consensus.State, cstypes, types, sm)
+//@   requires wf: len(cs.RoundState.Validators.Validators) <= 2147483647
+//@   assigns except(consensus.State, cstypes, types, sm), walSyncedForSign
+//@   atcall State.signVote same: arg1 == msgType && arg2 == hash
 
 // Precommit: entered at most once per height and round (the guard), signs exactly one precommit, and a precommit for a
 // block only under a polka for that block in this very round with the block validated and locked in this round.
